@@ -1,6 +1,6 @@
 """Per-property job tables for ./check."""
 
-SETUP_FLAVOURS = ["debug", "release", "asan"]
+SETUP_FLAVOURS = ["debug", "release", "asan", "valgrind"]
 HOOK_COMMITS = ["7097985", "11c3a47", "f0bf0f9", "022e47b", "ab4a121"]
 SETUP_EXTRAS = ["roto-bin", "cli-host"]
 NOT_YET = {}
@@ -12,8 +12,22 @@ DIFF_ASSUME = [
 ]
 
 
-def diff_jobs(profile, quick, thorough, corpus_prop):
-    return [
+VALGRIND = ["valgrind", "-q", "--error-exitcode=99", "--suppressions=/repo/valgrind_suppressions.supp"]
+
+
+def diff_jobs(profile, quick, thorough, corpus_prop, memcheck=False):
+    extra = []
+    if memcheck:
+        # memcheck also sees what JIT-compiled code does (e.g. an uninitialised stack slot
+        # handed to a host drop function); 25x slower, so a reduced workload
+        extra = [{"family": f"diff-{profile}", "flavour": "valgrind", "prefix": VALGRIND,
+                  "cases": {"quick": 200, "thorough": 8000}, "args": {"stream": "memcheck"}, "case_timeout": 300}]
+    # AddressSanitizer watches the host side (generated clone/drop/eq calls into Rust,
+    # list and string storage, module memory); leaks are the ledger's business
+    extra.append({"family": f"diff-{profile}", "flavour": "asan", "cases": {"quick": 2000, "thorough": 120000},
+                  "args": {"stream": "asan"}, "case_timeout": 120,
+                  "env": {"ASAN_OPTIONS": "detect_leaks=0:halt_on_error=1:abort_on_error=1"}})
+    return extra + [
         {"family": f"diff-{profile}", "flavour": "release", "cases": {"quick": quick, "thorough": thorough}},
         {"family": f"diff-{profile}", "flavour": "debug", "cases": {"quick": quick // 6, "thorough": thorough // 8},
          "args": {"stream": "debug"}},
@@ -38,7 +52,7 @@ PROPS = {
         "jobs": diff_jobs("scalar", 60000, 1500000, "C01"),
         "assumptions": DIFF_ASSUME,
         "min_tags": 120,
-        "budget": {"quick": 200, "thorough": 1500},
+        "budget": {"quick": 400, "thorough": 2400},
     },
     "C02": {
         "claim": "Differential runtime monitoring of aggregate programs: every leaf field is emitted through logging host functions after each mutation and compared with the interpreter's value-semantics model; the drop ledger and allocation balance watch the generated clone/drop/eq code. Sampled programs and layouts.",
@@ -48,10 +62,10 @@ PROPS = {
         "rule": "rotogen 'aggregate' profile: programs declaring 0-5 record/enum types (generic, nested, anonymous; random "
                 "field orders over all scalar widths, String, List, Option, Trk) that copy, mutate, compare, match and emit "
                 "every leaf field through out_* after mutations; non-trivial/distinct as for C01",
-        "jobs": diff_jobs("aggregate", 40000, 1000000, "C02"),
+        "jobs": diff_jobs("aggregate", 40000, 1000000, "C02", memcheck=True),
         "assumptions": DIFF_ASSUME,
         "min_tags": 100,
-        "budget": {"quick": 200, "thorough": 1500},
+        "budget": {"quick": 400, "thorough": 2400},
     },
     "C03": {
         "claim": "Online monitor at the host boundary: every instance of a drop-tracked registered type carries an id and a canary; the ledger flags double drop, drop of garbage, read after drop and leaks the moment they happen, and a counting allocator checks that the heap balance returns to zero after each call. Sampled programs x steering inputs.",
@@ -62,11 +76,11 @@ PROPS = {
                 "(24-byte Trk), strings and lists in every construct; the ledger checks each instance id is dropped exactly "
                 "once and the allocation balance returns to zero after the call; non-trivial = ran and produced clone/drop "
                 "or host events",
-        "jobs": diff_jobs("ownership", 40000, 1000000, "C03"),
+        "jobs": diff_jobs("ownership", 40000, 1000000, "C03", memcheck=True),
         "assumptions": DIFF_ASSUME + ["known-defect patterns (see KNOWN_FINDINGS.txt) are kept out of the random stream; "
                                       "their witnesses in corpus/ run in every check"],
         "min_tags": 90,
-        "budget": {"quick": 200, "thorough": 1500},
+        "budget": {"quick": 400, "thorough": 2400},
     },
     "C08": {
         "claim": "Trace monitor: the ordered log of host calls (function, argument values) made during one call is compared event by event with the reference interpreter's log for programs whose sub-expressions are effectful host calls. Sampled programs.",
@@ -79,7 +93,7 @@ PROPS = {
         "jobs": diff_jobs("effects", 40000, 1000000, "C08"),
         "assumptions": DIFF_ASSUME,
         "min_tags": 100,
-        "budget": {"quick": 200, "thorough": 1500},
+        "budget": {"quick": 400, "thorough": 2400},
     },
     "C10": {
         "claim": "Fault enumeration by process supervision: every enumerated (operator, type, operand pair) and built-in x edge-argument case runs between a begin and an end line of a supervised worker; a death (signal, abort) is attributed to that case. The enumerated edge space is covered completely on every run.",
@@ -300,6 +314,8 @@ PROPS = {
             {"family": "boundary", "flavour": "release", "cases": {"quick": 0, "thorough": 0}, "args": {"values": 5000},
              "tiers": ["thorough"]},
             {"family": "boundary", "flavour": "debug", "cases": {"quick": 0, "thorough": 0}, "args": {"stream": "debug"}},
+            {"family": "boundary", "flavour": "asan", "cases": {"quick": 0, "thorough": 0}, "args": {"stream": "asan"},
+             "env": {"ASAN_OPTIONS": "detect_leaks=0:halt_on_error=1:abort_on_error=1"}, "case_timeout": 300},
             {"family": "corpus", "flavour": "release", "cases": {"quick": 0, "thorough": 0}, "args": {"prop": "C05"}, "shards": 1},
         ],
         "assumptions": ["structural equality of the catalogue's own generators/equalities (floats bitwise, NaN == NaN)"],
